@@ -182,6 +182,46 @@ func c15Run(c *vk.Ctx) {
 	}
 	c.Count(fmt.Sprintf("concurrency_%d", conc), 1)
 	_ = hub
+	// --- a crowd: 280..420 connections open on ONE listener at the same time (silent clients), a
+	// clean exchange in the middle of them; every one of them is reported opened and closed ---
+	{
+		rig := env.RigRec
+		nCrowd := 280 + r.Intn(140)
+		var crowd []*SSClient
+		for i := 0; i < nCrowd; i++ {
+			cl, err := DialSS(rig.Addr4(), randSrc4(r), keys[0], nil)
+			if err != nil {
+				break
+			}
+			crowd = append(crowd, cl)
+		}
+		c.Progress("C15 crowd of %d open connections", len(crowd))
+		rc := genRelayCase(r, c.Batch, keys, false)
+		rc.Raw, rc.SlowMs, rc.SlowRead, rc.CloseLn, rc.TailDelayMs = false, 0, 0, false, 0
+		o := runRelayCase(env, r, rc)
+		okRelay := judgeRelay(c, "C15/relay", rc, o)
+		for _, cl := range crowd {
+			cl.Conn.Close()
+		}
+		if !okRelay {
+			return
+		}
+		for _, cl := range crowd {
+			rec, done := rig.WaitDone(cl.Local, relayTimeout+c06B)
+			if rec == nil || !done {
+				c.Violation("C15/closed-not-reported-exactly-once", map[string]any{"scenario": "one of a crowd of silent connections", "connections_open_at_once": len(crowd), "handler_finished": done})
+				return
+			}
+			sn := rec.Snap()
+			if len(sn.Closed) != 1 || len(sn.Probes) != 1 || sn.Status() != "ERR_CIPHER" {
+				c.Violation("C15/status-does-not-name-the-outcome", map[string]any{"scenario": "one of a crowd of silent connections", "seq": sn.Seq, "status": sn.Status(), "connections_open_at_once": len(crowd)})
+				return
+			}
+		}
+		c.Count("crowd_connections_all_reported", int64(len(crowd)))
+		c.Max("max_connections_open_at_once_on_one_listener", int64(len(crowd)))
+		c.Eval("crowd|silent-connections|" + sizeBucket(len(crowd)))
+	}
 	// --- quiescence: the gathered families equal the recorder's sums ---
 	closed = true
 	env.RigRec.Close(10 * time.Second)
@@ -593,7 +633,7 @@ func init() {
 		Timeout:     func(t string) time.Duration { return 25 * time.Minute },
 		Run: func(c *vk.Ctx) {
 			for _, s := range []string{"clean_exchanges_counters_equal", "quiescent_audits_passed", "scenario_ERR_CIPHER", "scenario_ERR_REPLAY_CLIENT", "scenario_ERR_REPLAY_SERVER", "scenario_ERR_READ_ADDRESS",
-				"scenario_ERR_ADDRESS_INVALID", "scenario_ERR_ADDRESS_PRIVATE", "scenario_ERR_CONNECT", "scenario_ERR_RELAY_CLIENT", "scenario_ERR_RELAY_TARGET", "dropped_by_listener_shutdown_before_dial"} {
+				"scenario_ERR_ADDRESS_INVALID", "scenario_ERR_ADDRESS_PRIVATE", "scenario_ERR_CONNECT", "scenario_ERR_RELAY_CLIENT", "scenario_ERR_RELAY_TARGET", "dropped_by_listener_shutdown_before_dial", "crowd_connections_all_reported"} {
 				c.Require(s)
 			}
 			c15Run(c)
